@@ -31,11 +31,15 @@
       when the first component is the rejected one: [C08_update_data_rejected_first]).
     - the exempt form: [C08_rejected_partial_prefix_witness] (F11: a rejected index-value
       update leaves a prefix applied and the KKT copy stale — observation, not a violation).
-    - "empty updates are no-ops": [C08_empty_noop]. *)
+    - "empty updates are no-ops": [C08_empty_noop].
+    - iterate state: [C08_default_start_fresh] (the start of a solve — x, s, z, tau, kappa — is a
+      function of the problem data when the initial KKT solves succeed; tied to the code by the
+      bitwise twin-trajectory comparison of the correspondence run). *)
 From Coq Require Import List ZArith Reals.
 Require Import Clarabel.Base.Ops Clarabel.Csc.Model Clarabel.Update.Model Clarabel.Update.Spec.
 Require Import Clarabel.Update.LemmasUpd Clarabel.Update.LemmasStep Clarabel.Update.LemmasInv
-               Clarabel.Update.LemmasWit Clarabel.Update.LemmasNorm.
+               Clarabel.Update.LemmasWit Clarabel.Update.LemmasNorm
+               Clarabel.Update.Start Clarabel.Update.LemmasStart.
 
 Theorem C08_blocked_untouched : forall T (O : Ops T), stmt_blocked_untouched O.
 Proof. exact @blocked_untouched_ok. Qed.
@@ -72,6 +76,12 @@ Proof. exact update_data_not_atomic_refuted_ok. Qed.
 
 Theorem C08_norm_true_R : stmt_norm_true_R.
 Proof. exact norm_true_R_ok. Qed.
+
+(** every solve starts from the data alone (iterate state does not survive a solve) *)
+Theorem C08_default_start_fresh : stmt_default_start_fresh.
+Proof. exact default_start_fresh_ok. Qed.
+Theorem C08_default_start_leak_witness : stmt_default_start_leak_witness.
+Proof. exact default_start_leak_witness_ok. Qed.
 
 (** the ring hypothesis is met by the integers and the reals *)
 Theorem C08_laws_Z : RingLaws OpsZ. Proof. exact RingLawsZ. Qed.
